@@ -242,6 +242,12 @@ pub fn gen_tamper(thorough: bool, rng: &mut Rng, only_pred: bool) -> Result<(), 
                 break sc;
             }
         } };
+        // the first scenario uses an application-chosen 128-bit nonce, the second a 256-bit one: the alteration nonce+1
+        // then changes a byte beyond the library's own 80 bits
+        let mut sc = sc;
+        if s < 2 {
+            sc.nonce = bn::BigNumber::from_hex(&rng.hex_bits(if s == 0 { 128 } else { 256 })).map_err(|e| e.to_string())?;
+        }
         let (_adds, proof) = prove(&pool, &sc);
         let proof = match proof {
             Out::Ok(p) => p,
